@@ -731,12 +731,16 @@ func (r *LightRenderer) Resume(clear bool, sigcont bool) {
 		}
 		r.enableModes()
 		r.flush()
-	} else if sigcont && !r.fullscreen && r.mouse {
-		// NOTE: SIGCONT (Coming back from CTRL-Z):
-		// It's highly likely that the offset we obtained at the beginning is
-		// no longer correct, so we simply disable mouse input.
-		r.disableMouse()
-		r.mouse = false
+	} else {
+		if sigcont && !r.fullscreen && r.mouse {
+			// NOTE: SIGCONT (Coming back from CTRL-Z):
+			// It's highly likely that the offset we obtained at the beginning is
+			// no longer correct, so we simply disable mouse input.
+			r.disableMouse()
+			r.mouse = false
+		}
+		// Pause has switched the modes off in this case as well
+		r.enableModes()
 	}
 }
 
